@@ -18,6 +18,10 @@ func init() {
 			runPersist(c, p, R, map[string]string{"C09.R2": "C09.R2", "C09.R3": "C09.R3", "C09.R4": "C09.R4", "C13.R1": "C09.R2"})
 			c.Floor("C09.R2", "Append sites", c.Stats["persist_append_sites"], 1)
 			checkMemoryStoreAppend(c, p, "C09.R4")
+			c.Rule("C09.R5", "the bundled SQLite store can append while a read cursor is open (pool not capped to one connection, no exclusive locking mode)")
+			if ps := c.Prog(ModSQLite); ps != nil {
+				checkPoolNotStarved(c, ps, "C09.R5")
+			}
 			c.Assume = append(c.Assume, "EventStore.Append is synchronous in the bundled stores", "json.Marshal/EventType are deterministic functions of the event")
 		},
 	})
@@ -42,6 +46,7 @@ func init() {
 			if pd := c.Prog(ModDurable); pd != nil {
 				n := checkWriters(c, pd, "C13.R5", []writerSpec{{PkgDurable, "Store", nil}})
 				c.Floor("C13.R5", "durable-streams store field writers", n, 3)
+				checkNoRetryTransport(c, pd, "C13.R5")
 			}
 			c.Floor("C13.R2", "error handler call sites", c.Stats["persist_error_handler_sites"], 2)
 			c.Floor("C13.R1", "path classes", c.Stats["persist_path_classes"], 5)
